@@ -255,17 +255,55 @@ def model_op(op, m, ys, yn, refl):
     return Model(m.cls, m.npol, s, n)
 
 
+WRAPPED = {"pyint", "pyfloat", "pycomplex", "list", "tuple", "str"}      # operand kinds the operators wrap into a 64-bit array
+NARROW = {"int8": "i", "int16": "i", "uint8": "i", "float32": "f", "complex64": "c"}
+
+
 @st.composite
 def s_binop(draw):
-    x = draw(s_signal(lmax=64))
+    import os
+    huge = draw(st.integers(0, 29 if os.environ.get("VF_TIER") == "thorough" else 149)) == 0
+    x = draw(s_signal(n=draw(st.sampled_from([131072, 140001, 2 ** 18])), fams=["smallint", "unif", "alt"]) if huge else s_signal(lmax=64))
     n = x["sig"]["n"]
-    return {"x": x, "op": draw(st.sampled_from(["+", "-", "*"])), "y": draw(s_operand(n, x["cls"], x["npol"]))}
+    y = draw(s_operand(n, x["cls"], x["npol"]))
+    if huge and y["kind"] in ("str", "bits", "list", "tuple"):
+        y["kind"], y["spec"] = "obj", draw(s_signal(n=y["L"], cls=x["cls"], npol=x["npol"], fams=["smallint", "unif"]))
+    if huge and y["kind"] == "obj" and draw(st.booleans()):
+        y["spec"]["sig"]["dt"] = x["sig"]["dt"]              # same dtype on both sides
+        if y["spec"]["noise"]:
+            y["spec"]["noise"]["dt"] = x["sig"]["dt"]
+        if x["noise"]:
+            x["noise"]["dt"] = x["sig"]["dt"]
+    c = {"x": x, "op": draw(st.sampled_from(["+", "-", "*"])), "y": y, "protect": draw(st.sampled_from([True, True, False]))}
+    nw = draw(st.sampled_from([None, None] + sorted(NARROW)))
+    if nw and y["kind"] in WRAPPED and NARROW[nw] == x["sig"]["dt"] and (x["noise"] is None or x["noise"]["dt"] == x["sig"]["dt"]):
+        c["narrow"] = nw                                      # x holds a narrow dtype, integers close to the top of its range
+    return c
 
 
-def do_binop(xobj, xm, op, d, live, what="binop"):
+def narrow_x(c, x, xm):
+    """x rebuilt on a narrow dtype (ints moved next to the top of the range); the model keeps the same values in 64-bit arithmetic"""
+    nw = c.get("narrow")
+    if not nw:
+        return x, xm, False
+    dt = np.dtype(nw)
+    if dt.kind in "iu":
+        hi = int(np.iinfo(dt).max)
+        s = (xm.s % 11) + hi - 12
+        n = None if xm.n is None else np.abs(xm.n) % 5
+    else:
+        s = xm.s.astype(dt)
+        n = None if xm.n is None else xm.n.astype(dt)
+    wide = {"i": np.int64, "u": np.int64, "f": np.float64, "c": np.complex128}[dt.kind]
+    obj = type(x)(s.astype(dt), None if n is None else n.astype(dt))
+    check(obj.signal.dtype == dt, "narrow-dtype-not-kept", f"{obj.signal.dtype} for {dt} input")
+    return obj, Model(xm.cls, xm.npol, s.astype(dt).astype(wide), None if n is None else n.astype(dt).astype(wide)), True
+
+
+def do_binop(xobj, xm, op, d, live, what="binop", protect=True, inexact=False):
     """perform one operation, check everything the statement promises, return (result obj, Model)"""
     y, ys, yn = make_operand(d, xm.cls, xm.npol)
-    g = Guard()
+    g = Guard(protect)
     if d["kind"] == "obj":
         g.add_signal("y", y)
     elif isinstance(y, np.ndarray):
@@ -284,8 +322,8 @@ def do_binop(xobj, xm, op, d, live, what="binop"):
     r = lib(apply_op, op, xobj, y, refl)
     contract(r, xm.cls, xm.npol, N, f"{what} {op}")
     if op in "+-":
-        rm = model_op(op, xm, ys, yn, refl)
-        same_model(r, rm, f"x {op} {d['kind']}")
+        rm = model_op(op, xm, np.atleast_1d(ys), yn, refl)
+        same_model(r, rm, f"x {op} {d['kind']}", exact=not inexact, tol=1e-6)
         # total-field clause, stated on the totals
         ytot = ys if yn is None else ys + yn
         want = xm.total + ytot if op == "+" else ((ytot - xm.total) if refl else (xm.total - ytot))
@@ -302,11 +340,12 @@ def do_binop(xobj, xm, op, d, live, what="binop"):
 def e_binop(c):
     reset()
     x, xm = build(c["x"])
-    live = [Guard()]
+    x, xm, nw = narrow_x(c, x, xm)
+    live = [Guard(c.get("protect", True))]
     live[0].add_signal("x", x)
     d = c["y"]
     try:
-        do_binop(x, xm, c["op"], d, live)
+        do_binop(x, xm, c["op"], d, live, protect=c.get("protect", True), inexact=nw and c["narrow"] in ("float32", "complex64"))
     finally:
         for g in live:
             g.release()
@@ -315,7 +354,8 @@ def e_binop(c):
     nt = (xnoise != ynoise) or (d["rel"] == "one" and ynoise) or (d["refl"] and d["kind"] in ("list", "str", "bits", "tuple")) or \
          (d["kind"] == "obj" and d["spec"]["sig"]["dt"] != c["x"]["sig"]["dt"])
     return {"nontrivial": bool(nt), "classes": [c["x"]["cls"] + str(c["x"]["npol"]), c["op"], d["kind"], d["rel"], "refl" if d["refl"] else "fwd",
-                                                 f"noise:{int(xnoise)}{int(ynoise)}"]}
+                                                 f"noise:{int(xnoise)}{int(ynoise)}", "narrow-" + c["narrow"] if nw else "wide",
+                                                 "operands-write-protected" if c.get("protect", True) else "operands-writeable", "N>=2^17" if xm.N >= 2 ** 17 else "N<2^17"]}
 
 
 # ==================================================================================================
